@@ -472,25 +472,16 @@ theorem sigL_singleton (k : FNode) : sigL [k] = sigToks k.leaves := by
 theorem sigL_ifws (b : Bool) : sigL (if b = true then [wsTok] else []) = [] := by
   cases b <;> simp [sigL_singleton, sig_wsTok, sigL_nil]
 
-theorem sigL_spacesGo : ∀ (ks : List FNode) (prev : Option FNode) (pending : Bool),
-    sigL (spacesGo prev pending ks) = sigL ks
-  | [], prev, pending => by
+theorem sigL_spacesGo : ∀ (ks : List FNode) (prev : Option FNode), sigL (spacesGo prev ks) = sigL ks
+  | [], prev => rfl
+  | k :: rest, prev => by
     unfold spacesGo
-    cases pending
-    · rfl
-    · simp [sigL_singleton, sig_wsTok, sigL_nil]
-  | k :: rest, prev, pending => by
-    unfold spacesGo
-    by_cases h1 : (pending && k.isWhitespace) = true
-    · rw [if_pos h1, sigL_cons, sigL_cons, sigL_spacesGo rest]
-    · rw [if_neg h1]
-      by_cases h2 : isSpaceOp k = true
-      · simp only [h2, if_true]
-        rw [sigL_append, sigL_append, sigL_ifws, sigL_ifws, sigL_cons, sigL_cons, sigL_spacesGo rest]
-        rfl
-      · simp only [h2, Bool.false_eq_true, if_false]
-        rw [sigL_append, sigL_ifws, sigL_cons, sigL_cons, sigL_spacesGo rest]
-        rfl
+    by_cases h2 : isSpaceOp k = true
+    · rw [if_pos h2, sigL_append, sigL_ifws, sigL_cons, sigL_cons]
+      cases needsBlank rest.head? with
+      | true => rw [if_pos rfl, sigL_cons, sig_wsTok, sigL_spacesGo rest]; rfl
+      | false => simp only [Bool.false_eq_true, if_false]; rw [sigL_spacesGo rest]; rfl
+    · rw [if_neg h2, sigL_cons, sigL_cons, sigL_spacesGo rest]
 
 /-- `SpacesAroundOperatorsFilter` preserves the sequence of non-whitespace leaves (type and value) -/
 theorem spaces_preserves_sig (fuel : Nat) (n n' : FNode) (h : spacesAroundOperators fuel n = .ok n') :
@@ -500,7 +491,7 @@ theorem spaces_preserves_sig (fuel : Nat) (n n' : FNode) (h : spacesAroundOperat
   intro d c ks ks' hk
   simp only [Except.ok.injEq] at hk
   rw [← hk]
-  exact sigL_spacesGo ks none false
+  exact sigL_spacesGo ks none
 
 theorem sigL_stripwsDefaultGo : ∀ (ks : List FNode) (a b : Bool), sigL (stripwsDefaultGo a b ks) = sigL ks
   | [], a, b => rfl
